@@ -69,29 +69,35 @@ Print Assumptions C16_dynamic_canonical.
     gate they live in) makes the model violate the specification on a concrete history
     which the flag-off model handles correctly. *)
 Theorem C16_prefix_refuted :
-  model_meets (mkflags16 true false false false) (cfgL 229) whidx w1_ops = false /\
+  model_meets (mkflags16 true false false false false) (cfgL 229) whidx w1_ops = false /\
   model_meets fl_spec (cfgL 229) whidx w1_ops = true.
 Proof. exact prefix_refuted. Qed.
 Print Assumptions C16_prefix_refuted.
 
 Theorem C16_thresh_refuted :
-  model_meets (mkflags16 false true false false) (cfgL 112) whidx w2_ops = false /\
+  model_meets (mkflags16 false true false false false) (cfgL 112) whidx w2_ops = false /\
   model_meets fl_spec (cfgL 112) whidx w2_ops = true.
 Proof. exact thresh_refuted. Qed.
 Print Assumptions C16_thresh_refuted.
 
 Theorem C16_gate_refuted :
-  model_meets (mkflags16 false false true false) (cfgL 100) whidx w3_ops = false /\
+  model_meets (mkflags16 false false true false false) (cfgL 100) whidx w3_ops = false /\
   model_meets fl_spec (cfgL 100) whidx w3_ops = true.
 Proof. exact gate_refuted. Qed.
 Print Assumptions C16_gate_refuted.
 
 Theorem C16_units_refuted :
-  model_meets (mkflags16 false false true true) (cfgB 196) whidx w4_ops = false /\
-  model_meets (mkflags16 false false true false) (cfgB 196) whidx w4_ops = true /\
+  model_meets (mkflags16 false false true true false) (cfgB 196) whidx w4_ops = false /\
+  model_meets (mkflags16 false false true false false) (cfgB 196) whidx w4_ops = true /\
   model_meets fl_spec (cfgB 196) whidx w4_ops = true.
 Proof. exact units_refuted. Qed.
 Print Assumptions C16_units_refuted.
+
+Theorem C16_addname_refuted :
+  model_meets (mkflags16 false false false false true) (cfgL 120) whidx w5_ops = false /\
+  model_meets fl_spec (cfgL 120) whidx w5_ops = true.
+Proof. exact addname_refuted. Qed.
+Print Assumptions C16_addname_refuted.
 
 (** Non-vacuity: the hypotheses hold for the witness histories (and for real digests:
     Props_C15.C15_hash_hypotheses_hold). *)
